@@ -153,3 +153,85 @@ func idleDeadline(r *ev.Run) {
 		}
 	}
 }
+
+// idleAfterLargeFrame: a legal frame of a few hundred kilobytes, then a peer that says nothing for 2.6 s, then an
+// ordinary request, then a clean end. Nothing that was set up for the large frame outlives it: the request after the
+// pause is answered and the service ends without error.
+func idleAfterLargeFrame(r *ev.Run) {
+	var wg sync.WaitGroup
+	for vi, size := range []int{70 << 10, 300 << 10, 5 << 20} {
+		wg.Add(1)
+		go func(vi, size int) { defer wg.Done(); idleAfterLargeFrameOne(r, vi, size) }(vi, size)
+	}
+	wg.Wait()
+}
+
+func idleAfterLargeFrameOne(r *ev.Run, vi, size int) {
+	{
+		c := r.Case("idle-after-large-frame", vi)
+		if c == nil {
+			return
+		}
+		r.Eval(1)
+		if _, hung := r.GuardWithin(c, "ServeAgent(large frame, pause, request)", size, ev.CaseBudget(), func() {
+			ag := wire.New()
+			defer ag.Close()
+			sock, err := ag.Listen()
+			if err != nil {
+				r.Inconclusive(err.Error())
+				return
+			}
+			srv, err := yubiagent.NewServer(sock, true)
+			if err != nil {
+				r.Violation(c, "server-construction-fails", err.Error(), size)
+				return
+			}
+			defer srv.Close()
+			c1, c2, err := wire.SocketPair()
+			if err != nil {
+				r.Inconclusive(err.Error())
+				return
+			}
+			defer c1.Close()
+			var serveErr error
+			done := make(chan struct{})
+			go func() {
+				defer close(done)
+				defer c2.Close()
+				defer func() { recover() }()
+				serveErr = yubiagent.ServeAgent(srv, c2)
+			}()
+			big := make([]byte, size)
+			big[0] = 200
+			go c1.Write(wire.Frame(big))
+			c1.SetReadDeadline(time.Now().Add(ev.OpTimeout()))
+			if resp, err := wire.ReadFrame(c1); err != nil || !bytes.Equal(resp, big) {
+				r.Violation(c, "well-formed-request-not-answered:large-frame", fmt.Sprintf("a relayed request of %d bytes: err=%v, %d reply bytes", size, err, len(resp)), size)
+				return
+			}
+			time.Sleep(2600 * time.Millisecond)
+			c1.Write(wire.Frame([]byte{11}))
+			c1.SetReadDeadline(time.Now().Add(ev.OpTimeout()))
+			if resp, err := wire.ReadFrame(c1); err != nil || len(resp) == 0 || resp[0] != 12 {
+				r.Violation(c, "well-formed-request-not-answered:after-a-pause-behind-a-large-frame", fmt.Sprintf("a listing request sent 2.6 s after a frame of %d bytes had been served: err=%v reply=%x", size, err, resp), size)
+				return
+			}
+			c1.(interface{ CloseWrite() error }).CloseWrite()
+			select {
+			case <-done:
+			case <-time.After(ev.OpTimeout()):
+				r.Violation(c, "serving-never-ends:after-a-large-frame", "", size)
+				return
+			}
+			if serveErr != nil {
+				r.Violation(c, "clean-end-of-stream-reported-as-error:after-a-large-frame", serveErr.Error(), size)
+				return
+			}
+			r.Count("requests served after a pause behind a large frame, clean end afterwards", 1)
+			r.Nontrivial(fmt.Sprintf("idle-after-large-frame:%d", size))
+		}); hung {
+			r.Violation(c, "serving-never-ends:after-a-large-frame", "the case did not finish within the watchdog", size)
+			return
+		}
+	}
+}
